@@ -18,6 +18,8 @@ ASM = "swcgeom.transforms.branch_tree.BranchTreeAssembler"
 
 def run(ctx, col, tier):
     repo = ctx.repo
+    from ..rules import normaxis as _normaxis
+    _normaxis.run(ctx, col, ('swcgeom.analysis.volume', 'swcgeom.utils.volumetric_object', 'swcgeom.utils.solid_geometry', 'swcgeom.analysis.features', 'swcgeom.analysis.lmeasure', 'swcgeom.analysis.sholl', 'swcgeom.core.tree', 'swcgeom.core.path', 'swcgeom.core.branch', 'swcgeom.transforms.branch', 'swcgeom.transforms.branch_tree'))
     col.rule("R-SHAPE", "every operand of np.concatenate in the resamplers has rank >= 1 (abstract "
              "shapes; a scalar taken with [-1] from a 1-D array has rank 0)", floor=2)
     col.rule("R-ARGDISC", "generic tree->tree code on the resampling / smoothing paths calls soma() "
